@@ -1,4 +1,6 @@
 import ObiVerif.Model.Iter
+import ObiVerif.Model.IterWorker
+import ObiVerif.Model.IterMore
 import ObiVerif.Driver.Util
 /-! line protocol for C03: `<combinator> [params] | <stream> | <stream> …`, a stream being the
 arrival-ordered list of `order:id,id,…` -/
@@ -32,6 +34,107 @@ def predP (r : Rec) : Bool := r % 3 == 0
 def clsK (r : Rec) : Nat := r % 4
 def workF (r : Rec) : List Rec := if r % 5 == 0 then [] else if r % 7 == 0 then [r, r + 1000] else [r]
 
+/-- per-record worker described on the case line by `K,M,E`: record `id` fails when `E > 0` and
+`id % E = E - 1`; else it yields `n` records `id*100 + j` (`j < n`), `n = K` (mode `c`) or
+`(id*7 + K) % (K+1)` (mode `m`: fan-outs 0..K mixed within a batch) -/
+structure WSpec where
+  k : Nat
+  varying : Bool
+  e : Nat
+
+def parseWSpec (s : String) : Option WSpec :=
+  match s.splitOn "," with
+  | [k, m, e] => do
+    let k ← k.toNat?
+    let e ← e.toNat?
+    let v ← if m = "c" then some false else if m = "m" then some true else none
+    pure ⟨k, v, e⟩
+  | _ => none
+
+def specWorker (w : WSpec) : SeqWorker := fun id =>
+  if w.e > 0 && id % w.e == w.e - 1 then none else
+  let n := if w.varying then (id * 7 + w.k) % (w.k + 1) else w.k
+  some ((List.range n).map fun j => id * 100 + j)
+
+/-- `w1.ChainWorkers(w2).ChainWorkers(w3)…` ; `true` in the second component = the adapter panicked -/
+def chainAll : List WSpec → Option SeqWorker
+  | [] => none
+  | w :: rest => some (rest.foldl (fun acc n => chainWorkers growMin acc (specWorker n)) (specWorker w))
+
+def flagArg (pre : String) (s : String) : Option Nat :=
+  if s.startsWith pre then (s.drop pre.length).toString.toNat? else none
+
+def showStage : StageRes → String
+  | .ok out => showStream (sortByOrder out)
+  | .fatal => "fatal"
+  | .panic => "panic"
+
+/-- worker-stage ops: `iworker w=N boe=B K,M,E`, `icond …`, `islice …`, `chain w=N boe=B spec spec …`,
+`adapt boe=B cond=C K,M,E` (the adapter alone on batch 0) -/
+def runWorkerOp (head : List String) (s : List Batch) : Option String :=
+  match head with
+  | "chain" :: w :: boe :: specs => do
+    let _ ← flagArg "w=" w
+    let b ← flagArg "boe=" boe
+    let sps ← specs.mapM parseWSpec
+    let wk ← chainAll sps
+    some (showStage (iWorker growMin wk (b != 0) s))
+  | [op, w, boe, spec] => do
+    let _ ← flagArg "w=" w
+    let b ← flagArg "boe=" boe
+    let sp ← parseWSpec spec
+    let boe := b != 0
+    if op = "iworker" then some (showStage (iWorker growMin (specWorker sp) boe s))
+    else if op = "icond" then some (showStage (iCondWorker growMin predP (specWorker sp) boe s))
+    else if op = "islice" then
+      some (showStage (sliceWorkerStage (fun l => sliceSpec (fun _ => true) (specWorker sp) boe l) boe s))
+    else if op = "adapt" || op = "adaptcond" then
+      match s with
+      | [(_, l)] =>
+        let r := if op = "adapt" then seqToSlice growMin (specWorker sp) boe l
+                 else seqToSliceCond growMin predP (specWorker sp) boe l
+        match r with
+        | .ok out => some s!"ok {",".intercalate (out.map toString)}"
+        | .error => some "err"
+        | .panic => some "panic"
+      | _ => none
+    else none
+  | _ => none
+
+/-- record lengths and fragment identities used by the `frag` cases (the harness builds sequences of
+that length and maps `<id>_sub[a+1..b]` to `id*10000 + a*100 + b`) -/
+def fragLen (r : Rec) : Nat := 1 + (r * 7) % 40
+def fragSub (r a b : Rec) : Rec := r * 10000 + a * 100 + b
+
+/-- one stage of a `pipe` case -/
+def pipeStage (tok : String) (arr : List Batch) : Option (List Batch) :=
+  match tok.splitOn ":" with
+  | ["sort"] => some (sortBatches arr)
+  | ["filterempty"] => some (filterEmpty arr)
+  | ["worker"] => some (workerStage workF arr)
+  | ["limitmem"] => some (passThrough arr)
+  | ["rebatch", n] => do
+    let n ← n.toNat?
+    if n = 0 then none else some (rebatch n arr)
+  | ["filteron", n] => do
+    let n ← n.toNat?
+    if n = 0 then none else some (filterOn predP n arr)
+  | ["iworker", k, m] => do
+    let sp ← parseWSpec s!"{k},{m},0"
+    match iWorker growMin (specWorker sp) false arr with
+    | .ok out => some out
+    | _ => none
+  | ["frag", m, l, o, sz] => do
+    let m ← m.toNat?
+    let l ← l.toNat?
+    let o ← o.toNat?
+    let sz ← sz.toNat?
+    if l ≤ o || sz = 0 then none else some (fragments (fragRec fragLen fragSub m l o) sz arr)
+  | _ => none
+
+def runPipe (stages : List String) (arr : List Batch) : Option (List Batch) :=
+  stages.foldlM (fun a tok => pipeStage tok a) arr
+
 def run (line : String) : String :=
   match line.splitOn " | " with
   | head :: streams =>
@@ -54,6 +157,9 @@ def run (line : String) : String :=
         | some n => if n = 0 then "bad-op" else showStream (filterOn predP n s)
         | none => "bad-op"
     | some [s], ["worker", _] => showStream (sortByOrder (workerStage workF s))
+    | some [s], "iworker" :: _ | some [s], "icond" :: _ | some [s], "islice" :: _
+    | some [s], "chain" :: _ | some [s], "adapt" :: _ | some [s], "adaptcond" :: _ =>
+        (runWorkerOp (words head) s).getD "bad-op"
     | some [s], ["distribute", n] =>
         match n.toNat? with
         | some n => if n = 0 then "bad-op" else
@@ -77,6 +183,32 @@ def run (line : String) : String :=
         -- n implicit one-record batches through N identity workers: by `worker_spec` / `workerStage_keyed`
         -- every batch comes out once, with its own number and record, whatever the schedule
         "ok"
+    | some [s], ["frag", m, l, o, sz, _] =>
+        match m.toNat?, l.toNat?, o.toNat?, sz.toNat? with
+        | some m, some l, some o, some sz =>
+          if l ≤ o || sz = 0 then "bad-op" else showStream (fragments (fragRec fragLen fragSub m l o) sz s)
+        | _, _, _, _ => "bad-op"
+    | some [s], ["merge", n] =>
+        match n.toNat? with
+        | some n => if n = 0 then "bad-op" else
+            match mergeBatches (fun l => l.headD 0) n s with
+            | some out => showStream out
+            | none => "panic"
+        | none => "bad-op"
+    | some [s], ["load"] => ",".intercalate ((load s).map toString)
+    | some [s], ["count"] => toString (countRecs s)
+    | some [s], ["complete"] => showStream (completeFile (sortBatches s))
+    | some [s], ["limitmem"] => showStream (passThrough s)
+    | some [s], ["speed"] => showStream (passThrough s)
+    | some [s], ["tee"] => s!"A {showStream (copyTee s).1} B {showStream (copyTee s).2}"
+    | some [a, b], ["pairedwith", n] =>
+        match n.toNat? with
+        | some n => if n = 0 then "bad-op" else showStream (pairedWith (pairTo n a b))
+        | none => "bad-op"
+    | some [s], ["pipe", _, stages] =>
+        match runPipe (stages.splitOn ",") s with
+        | some out => showStream (sortByOrder out)
+        | none => "bad-op"
     | some ss, ["pool"] =>
         let out := pool ss.flatten
         s!"orders={",".intercalate ((sortNat (out.map (·.1))).map toString)} recs={",".intercalate ((sortNat (flatten out)).map toString)}"
